@@ -23,6 +23,7 @@ RULE = ("Hypothesis typed structures (1-8 atoms, thorough up to 30; 1-12 atom ty
         "save(load(save(x))) is byte-identical to the next pass and to save(x) when x's strings are already normalised; "
         "path and file-object I/O agree. Non-trivial = >= 2 atom types, >= 1 term kind with a table, and tilted cell or "
         "negative coordinate; distinct by hash.")
+RULE += (" Since rounds 9-10: One case in six has a type with a non-atomic mass next to meaningful labels; the edit-then-write-again step also shears the cell in place (orthorhombic <-> tilted).")
 ASSUMPTIONS = ["elements after reload are C14's business and are not compared",
                "coordinates, masses and charges are compared at the printed precision (%10.6f)"]
 
